@@ -165,10 +165,93 @@ def close(a, b, tol=1e-12):
     return abs(a - b) <= tol + tol * max(abs(a), abs(b))
 
 
+def plus_one(a):
+    return a + 1.0
+
+
+def plus_one_2(a, b):
+    return a + 1.0 + 0.0 * b
+
+
+LARGE_ORDERS = ("forward", "reversed", "evens-then-odds", "ends-inward")
+
+
+def large_order(n, kind):
+    idx = list(range(n))
+    if kind == "reversed":
+        return idx[::-1]
+    if kind == "evens-then-odds":
+        return idx[::2] + idx[1::2]
+    if kind == "ends-inward":
+        out = []
+        lo, hi = 0, n - 1
+        while lo <= hi:
+            out.append(hi)
+            if lo != hi:
+                out.append(lo)
+            lo, hi = lo + 1, hi - 1
+        return out
+    return idx
+
+
+def check_large(case):
+    """Chains far longer than the enumerated graphs: node i = node i-1 + 1 (every 7th node an assignment-defined
+    parameter, the last one feeding a reaction), declared in four orders; the same chain closed to a cycle; the same
+    chain with one node naming something that does not exist."""
+    from mxlpy import InitialAssignment, Model
+    from mxlpy.model import CircularDependencyError, MissingDependenciesError
+
+    n, defect = case["n"], case["defect"]
+    m = Model()
+    m.add_variable("x", 1.5)
+    m.add_parameter("k", 2.0)
+    for i in large_order(n, case["order"]):
+        prev = "k" if i == 0 else f"n{i - 1}"
+        args = [prev]
+        fn = plus_one
+        if defect == "cycle" and i == 0:
+            args = [f"n{n - 1}"]
+        if defect == "missing" and i == n // 2:
+            args, fn = [prev, "ghost"], plus_one_2
+        if i % 7 == 3:
+            m.add_parameter(f"n{i}", InitialAssignment(fn=fn, args=args))
+        else:
+            m.add_derived(f"n{i}", fn, args=args)
+    m.add_reaction("v", plus_one, args=[f"n{n - 1}"], stoichiometry={"x": 1})
+    txt = f"{case}"
+    try:
+        args = m.get_args()
+        rhs = m.get_right_hand_side()
+    except MissingDependenciesError as exc:
+        if defect == "missing":
+            listed = parse_missing(str(exc))
+            want = {f"n{n // 2}": ["ghost"]}
+            if listed != want:
+                return outcome(False, "wrong-listing", symptom="wrong-missing-listing:large", nontrivial=True, detail=f"listed {str(listed)[:200]} expected {want} | {txt}")
+            return outcome(True, "rejected-missing", nontrivial=True)
+        return outcome(False, "rejected-good-graph" if defect == "none" else "wrong-error", symptom=f"large:{defect}:raised-missing", nontrivial=True, detail=f"{str(exc)[:300]} | {txt}")
+    except CircularDependencyError as exc:
+        if defect == "cycle":
+            return outcome(True, "rejected-circular", nontrivial=True)
+        return outcome(False, "rejected-good-graph" if defect == "none" else "wrong-error", symptom=f"large:{defect}:raised-circular", nontrivial=True,
+                       detail=f"a chain of {n} components in order {case['order']!r}: {str(exc)[:200]} | {txt}")
+    if defect != "none":
+        return outcome(False, "numbers-for-bad-graph", symptom="numbers-returned:large", nontrivial=True, detail=txt)
+    for i in range(n):
+        if not close(float(args[f"n{i}"]), 3.0 + i):
+            return outcome(False, "wrong-value", symptom="wrong-value:large", nontrivial=True, detail=f"n{i}={args[f'n{i}']} expected {3.0 + i} | {txt}")
+    if not close(float(rhs["x"]), 3.0 + n):
+        return outcome(False, "wrong-value", symptom="wrong-value:large", nontrivial=True, detail=f"dx/dt={rhs['x']} expected {3.0 + n} | {txt}")
+    return outcome(True, "values-equal", nontrivial=True)
+
+
 def check(case):
     from mxlpy.model import CircularDependencyError, MissingDependenciesError
 
     from mc.spec import build
+
+    if case.get("family") == "large":
+        return check_large(case)
 
     if case.get("family") == "surr":
         spec = surr_spec(case)
@@ -307,6 +390,8 @@ def generate(tier):
 
 def _self_dependency(case):
     """Input predicate: some component names itself (or a surrogate consumes its own output)."""
+    if case.get("family") == "large":
+        return False
     if case.get("family") == "surr":
         return case["variant"] == "own"
     n, adj = case["n"], case["adj"]
@@ -321,5 +406,10 @@ def run(ctx):
     for batch in generate(ctx.tier):
         total += len(batch)
         ctx.evaluate(batch, chunk=1000, timeout=5)
-    ctx.note(f"{total} cases (graphs x orders x kinds + overlays + provider family)")
+    sizes = (60, 150, 320) if ctx.tier == "quick" else (60, 150, 320, 700)
+    large = [{"family": "large", "n": n, "order": order, "defect": defect} for n in sizes for order in LARGE_ORDERS for defect in ("none", "cycle", "missing")]
+    total += len(large)
+    ctx.evaluate(large, chunk=1, timeout=600)
+    ctx.note(f"{total} cases (graphs x orders x kinds + overlays + provider family + {len(large)} chains of {sizes} components)")
     ctx.coverage_extra["max_components"] = 4 if ctx.tier == "thorough" else 3
+    ctx.coverage_extra["large_chain_sizes"] = list(sizes)
